@@ -38,6 +38,10 @@
 (*        handler aborts too; with a record of another kind a second       *)
 (*        record is added (C05, C14)                                       *)
 (*   S16  see ClientStore (C18)                                            *)
+(*   S19  a revocation for a tower shown "unreachable" is not passed to    *)
+(*        its retrier - also when that retrier has just been woken and has *)
+(*        already reloaded the pending data from disk: the appointment     *)
+(*        stays pending while the tower is shown reachable (C13)           *)
 (*   S18  a retrier is started for a tower already proven misbehaving (a   *)
 (*        handler that copied the statuses earlier asked for it): the      *)
 (*        status is overwritten and the tower is sent to again (C14)       *)
@@ -195,7 +199,12 @@ NotifyLocal(c, n) ==
         ELSE IF c.poisoned THEN {NotDies(c, n)}
         ELSE IF s = "reachable"
              THEN (IF c.up[t] THEN {} ELSE NotPending(c, n, t, "conn", TRUE, {}))
-             ELSE NotPending(c, n, t, "keep", s # "unreachable", {})
+             \* the data is kept for the retrier, which is told unless it idles (Tell looks): an idle one reloads
+             \* everything from disk when it wakes.  S19: a tower that was shown unreachable is never told about -
+             \* also when its retrier has just been woken and has already reloaded.
+             ELSE IF s = "unreachable" /\ Dev("S19")
+                  THEN NotPending(c, n, t, "keep", FALSE, IF c.inmap[t] # "idle" THEN {"S19"} ELSE {})
+                  ELSE NotPending(c, n, t, "keep", TRUE, {})
         : x \in n.todo}
 
 \* towers the handler may send to now
